@@ -492,11 +492,9 @@ impl BTree {
                                     (k.to_vec(), v)
                                 })
                                 .collect();
-                            // Insert new entry into the sorted list.
-                            let pos = entries
-                                .binary_search_by(|(k, _)| k.as_slice().cmp(key))
-                                .unwrap_or_else(|p| p);
-                            entries.insert(pos, (key.to_vec(), payload));
+                            // Insert new entry into the sorted list, in front of entries with
+                            // an equal key (newest first), exactly as the non-split path does.
+                            entries.insert(idx, (key.to_vec(), payload));
 
                             let mid = entries.len() / 2;
                             let left_entries = entries[..mid].to_vec();
